@@ -172,3 +172,5 @@ func firstDiffLine(a, b string) string {
 	}
 	return "(equal)"
 }
+
+func removeAll(dir string) { os.RemoveAll(dir) }
